@@ -129,6 +129,204 @@ def effect_round_trip(ctx, battery):
         ctx.decide(f'{nm}/witness', [z3.Or([z3.And(o.pc) if o.pc else T for o in rets2] or [F])], expect='sat', ex=ex2)
 
 
+# ---------------------------------------------------------------------------------------------------------------- template body and link messages
+
+def template_round_trip(ctx, has_cond, effect, battery):
+    """ast::TemplateBody -> models::TemplateBody -> ast::TemplateBody: id, two annotations (key and value), effect, the THREE constraints each in its own position
+    (principal and resource share one message type), the condition.  Accessors of the body and the component conversions are tokens / logged stubs."""
+    P = ctx.prog('api')
+    f1 = [f for f in P.find(r'>::from$', FILE) if len(f.args) == 1 and f.args[0][1].replace(' ', '') == '&cedar_policy_core::ast::TemplateBody' and f.ret.endswith('cedar_policy_core::TemplateBody')]
+    f2 = [f for f in P.find(r'>::try_from$', FILE) if len(f.args) == 1 and f.args[0][1].endswith('cedar_policy_core::TemplateBody') and 'ast::TemplateBody,' in f.ret.replace(' ', '').replace('>', ',')]
+    if len(f1) != 1 or len(f2) != 1:
+        raise LookupError(f'proto TemplateBody conversions: {len(f1)} / {len(f2)} candidates')
+    f1, f2 = f1[0], f2[0]
+    ctx.use(f1), ctx.use(f2)
+    body = Opaque('ast::policy::TemplateBody', 'the template body')
+    pid, pid_txt = Opaque('ast::policy::PolicyID', 'policy id'), Opaque('String', 'policy id as text')
+    akeys = [Opaque('ast::id::AnyId', f'annotation key {i}') for i in range(2)]
+    avals = [Opaque('ast::policy::Annotation', f'annotation value {i}') for i in range(2)]
+    ktxt = [Opaque('String', f'annotation key {i} as text') for i in range(2)]
+    vtxt = [Opaque('String', f'annotation value {i} as text') for i in range(2)]
+    vsmol = [Opaque('smol_str::SmolStr', f'annotation value {i} (SmolStr)') for i in range(2)]
+    cons = {'principal': Opaque('ast::policy::PrincipalConstraint', 'principal constraint'), 'action': Opaque('ast::policy::ActionConstraint', 'action constraint'), 'resource': Opaque('ast::policy::ResourceConstraint', 'resource constraint')}
+    pcons = {k: Opaque('cedar_policy_core::' + ('ActionConstraint' if k == 'action' else 'PrincipalOrResourceConstraint'), f'{k} constraint as message') for k in cons}
+    cond, pcond = Opaque('ast::expr::Expr', 'condition'), Opaque('cedar_policy_core::Expr', 'condition as message')
+    gid = lambda ex_, st, v: getattr(strip(ex_, st, v), 'id', None)
+    table = lambda pairs: (lambda ex_, st, c, A: dict((a.id, b) for a, b in pairs).get(gid(ex_, st, A[0])))
+    okt = lambda pairs: (lambda ex_, st, c, A: (lambda r: None if r is None else ok(r))(dict((a.id, b) for a, b in pairs).get(gid(ex_, st, A[0]))))
+
+    def mk():
+        ex = ctx.new_exec('api')
+        ex.havoc_unknown = HAVOC
+        ex.max_paths = 2000
+        # accessors of the body (cedar-policy-core)
+        ex.stub(r'ast::TemplateBody::id$', lambda ex_, st, c, A: ex_.new_cell(st, pid, 'pid'), 'TemplateBody::id')
+        ex.stub(r'ast::TemplateBody::annotations$', lambda ex_, st, c, A: Agg('struct', '~vec_iter', None, [Agg('tuple', None, None, [ex_.new_cell(st, akeys[i], 'ak'), ex_.new_cell(st, avals[i], 'av')]) for i in range(2)]), 'TemplateBody::annotations: two annotations')
+        ex.stub(r'ast::TemplateBody::effect$', lambda ex_, st, c, A: Agg('variant', 'ast::policy::Effect', effect, []), 'TemplateBody::effect')
+        for k in cons:
+            ex.stub(rf'ast::TemplateBody::{k}_constraint$', lambda ex_, st, c, A, k=k: ex_.new_cell(st, cons[k], k), f'TemplateBody::{k}_constraint')
+        ex.stub(r'ast::TemplateBody::non_scope_constraints$', lambda ex_, st, c, A: some(ex_.new_cell(st, cond, 'cond')) if has_cond else none(), 'TemplateBody::non_scope_constraints')
+        # text of ids and annotations (tokens that read back as the same object)
+        ex.stub(r'PolicyID as AsRef<str>>::as_ref$|AnyId as AsRef<str>>::as_ref$|Annotation as AsRef<str>>::as_ref$', lambda ex_, st, c, A: A[0], 'as_ref::<str> (the same object seen as text)')
+        ex.stub(r'<str as (std::string::)?ToString>::to_string$|<&str as Into<(std::string::)?String>>::into$|str as ToOwned>::to_owned$', table([(pid, pid_txt)] + list(zip(akeys, ktxt)) + list(zip(avals, vtxt))), 'text of an id / annotation (token)')
+        ex.stub(r'ast::PolicyID::from_string::<', table([(pid_txt, pid)]), 'PolicyID::from_string on the text of the id: the id')
+        ex.stub(r'AnyId( as [\w:]+)?>?::from_normalized_str$', okt(list(zip(ktxt, akeys))), 'AnyId::from_normalized_str on the text of key i: key i')
+        ex.stub(r'<(std::string::)?String as Deref>::deref$', lambda ex_, st, c, A: A[0], 'String -> &str')
+        ex.stub(r'String as Into<(smol_str::)?SmolStr>>::into$', table(list(zip(vtxt, vsmol))), 'String -> SmolStr (annotation value)')
+        # component conversions (their own obligations)
+        ex.stub(r'PrincipalOrResourceConstraint as From<&.*ast::PrincipalConstraint>>::from$', table([(cons['principal'], pcons['principal'])]), 'principal constraint -> message (own obligation)')
+        ex.stub(r'PrincipalOrResourceConstraint as From<&.*ast::ResourceConstraint>>::from$', table([(cons['resource'], pcons['resource'])]), 'resource constraint -> message (own obligation)')
+        ex.stub(r'ActionConstraint as From<&.*ast::ActionConstraint>>::from$', table([(cons['action'], pcons['action'])]), 'action constraint -> message (own obligation)')
+        ex.stub(r'ast::PrincipalConstraint as TryFrom<.*PrincipalOrResourceConstraint>>::try_from$', lambda ex_, st, c, A: (lambda k: None if k is None else ok(Agg('struct', '~as_principal', None, [cons[k]])))({pcons[k].id: k for k in ('principal', 'resource')}.get(gid(ex_, st, A[0]))),
+                'message -> principal constraint: the constraint the message came from, read as a principal constraint')
+        ex.stub(r'ast::ResourceConstraint as TryFrom<.*PrincipalOrResourceConstraint>>::try_from$', lambda ex_, st, c, A: (lambda k: None if k is None else ok(Agg('struct', '~as_resource', None, [cons[k]])))({pcons[k].id: k for k in ('principal', 'resource')}.get(gid(ex_, st, A[0]))),
+                'message -> resource constraint')
+        ex.stub(r'ast::ActionConstraint as TryFrom<.*ActionConstraint>>::try_from$', okt([(pcons['action'], cons['action'])]), 'message -> action constraint')
+        ex.stub(r'<(cedar_policy_core::)?Expr as From<&.*ast::Expr>>::from$', table([(cond, pcond)]), 'condition -> message (own obligation)')
+        ex.stub(r'ast::Expr as TryFrom<(cedar_policy_core::)?Expr>>::try_from$', okt([(pcond, cond)]), 'message -> condition')
+        ex.stub(r'ProtobufConversionError::missing$', lambda ex_, st, c, A: Opaque('ProtobufConversionError', 'missing field'), 'conversion error (term)')
+
+        def new_body(ex_, st, c, A):
+            st.notes['new'] = list(A)
+            return Opaque('ast::policy::TemplateBody', 'rebuilt body')
+        ex.stub(r'ast::TemplateBody::new$', new_body, 'TemplateBody::new(id, loc, annotations, effect, principal, action, resource, condition): logged')
+        C.install(ex)
+        return ex
+    ex = mk()
+    outs = ex.run(f1, [Ref(0, ('local', 'BODY'))], heap={'BODY': body})
+    ctx.absorb(ex)
+    nm = f'template body AST -> protobuf message -> AST[{effect}, {"with" if has_cond else "without"} condition]'
+    ctx.panic_summary(nm + ' (to message)', outs, ex)
+    rets = [o for o in outs if o.kind == 'ret']
+    if len(rets) != 1:
+        raise NotEncoded(f'{nm}: AST -> message gave {len(rets)} results')
+    msg = deep(ex, rets[0].st, rets[0].val)
+    ex2 = mk()
+    outs2 = ex2.run(f2, [msg])
+    ctx.absorb(ex2)
+    ctx.panic_summary(nm + ' (back to AST)', outs2, ex2)
+    rets2 = [o for o in outs2 if o.kind == 'ret']
+    bad, last = [], None
+    for o in rets2:
+        A = o.st.notes.get('new')
+        good = isinstance(o.val, Agg) and o.val.variant == 'Ok' and A is not None and len(A) == 8
+        if good:
+            v = lambda x: strip(ex2, o.st, x)
+            anns = v(A[2])
+            pairs = []
+            if isinstance(anns, Agg) and anns.name in ('~vec', '~vec_iter', '~hmap', '~btree', '~collected'):
+                for e in anns.fields:
+                    e = v(e)
+                    if isinstance(e, Agg) and len(e.fields) == 2:
+                        a_ = v(e.fields[1])
+                        val_ = v(a_.fields[0]) if isinstance(a_, Agg) and a_.fields else a_
+                        pairs.append((getattr(v(e.fields[0]), 'id', None), getattr(val_, 'id', None)))
+            cnd = v(A[7])
+            last = {'id': getattr(v(A[0]), 'id', None), 'annotations': sorted(pairs, key=str), 'effect': getattr(v(A[3]), 'variant', None), 'p': repr(v(A[4]))[:60], 'a': repr(v(A[5]))[:60], 'r': repr(v(A[6]))[:60], 'cond': repr(cnd)[:60]}
+            good = gid(ex2, o.st, A[0]) == pid.id and sorted(pairs, key=str) == sorted([(akeys[i].id, vsmol[i].id) for i in range(2)], key=str) and getattr(v(A[3]), 'variant', None) == effect
+            good = good and isinstance(v(A[4]), Agg) and v(A[4]).name == '~as_principal' and gid(ex2, o.st, v(A[4]).fields[0]) == cons['principal'].id
+            good = good and gid(ex2, o.st, A[5]) == cons['action'].id and isinstance(v(A[6]), Agg) and v(A[6]).name == '~as_resource' and gid(ex2, o.st, v(A[6]).fields[0]) == cons['resource'].id
+            good = good and ((isinstance(cnd, Agg) and cnd.variant == 'Some' and gid(ex2, o.st, cnd.fields[0]) == cond.id) if has_cond else (isinstance(cnd, Agg) and cnd.variant == 'None'))
+        bad.append(z3.And(o.pc + [z3.BoolVal(not good)]))
+    ctx.decide(f'{nm}/same id, annotations, effect, constraints in their own positions, condition', [z3.Or(bad) if bad else T], ex=ex2, sample={'message': repr(msg)[:300], 'rebuilt': str(last)[:300]},
+               on_sat=lambda m: battery(ctx, nm, 'proto/policy.rs: TemplateBody conversion', 'a template body does not survive AST -> protobuf -> AST'))
+    ctx.decide(f'{nm}/paths-cover', [z3.Not(z3.Or([z3.And(o.pc) if o.pc else T for o in rets2]))], ex=ex2)
+    ctx.decide(f'{nm}/witness', [z3.Or([z3.And(o.pc) if o.pc else T for o in rets2 if isinstance(o.val, Agg) and o.val.variant == 'Ok'] or [F])], expect='sat', ex=ex2)
+
+
+def link_round_trip(ctx, has_p, has_r, battery):
+    """ast::Policy (a template link) -> models::Policy -> reify_template_link: the same template id, link id, and slot values under their own slots"""
+    from ..models import key_id
+    P = ctx.prog('api')
+    f1 = [f for f in P.find(r'>::from$', FILE) if len(f.args) == 1 and f.args[0][1].replace(' ', '') == '&cedar_policy_core::ast::Policy' and f.ret.endswith('cedar_policy_core::Policy')]
+    f2 = [f for f in P.find(r'(^|::)reify_template_link$', FILE) if len(f.args) == 3]
+    if len(f1) != 1 or len(f2) != 1:
+        raise LookupError(f'proto Policy conversions: {len(f1)} / {len(f2)} candidates')
+    f1, f2 = f1[0], f2[0]
+    ctx.use(f1), ctx.use(f2)
+    pol, tmpl = Opaque('ast::policy::Policy', 'the linked policy'), Opaque('ast::policy::Template', 'its template')
+    tid, lid = Opaque('ast::policy::PolicyID', 'template id'), Opaque('ast::policy::PolicyID', 'link id')
+    tid_txt, lid_txt = Opaque('String', 'template id as text'), Opaque('String', 'link id as text')
+    SP, SR = Opaque('ast::policy::SlotId', '?principal'), Opaque('ast::policy::SlotId', '?resource')
+    up, ur = Opaque('ast::entity::EntityUID', 'principal value'), Opaque('ast::entity::EntityUID', 'resource value')
+    pup, pur = Opaque('cedar_policy_core::EntityUid', 'principal value as message'), Opaque('cedar_policy_core::EntityUid', 'resource value as message')
+    env = Agg('struct', '~hmap', None, ([Agg('tuple', None, None, [SP, up])] if has_p else []) + ([Agg('tuple', None, None, [SR, ur])] if has_r else []))
+    gid = lambda ex_, st, v: getattr(strip(ex_, st, v), 'id', None)
+    table = lambda pairs: (lambda ex_, st, c, A: dict((a.id, b) for a, b in pairs).get(gid(ex_, st, A[0])))
+
+    def mk():
+        ex = ctx.new_exec('api')
+        ex.havoc_unknown = HAVOC
+        ex.max_paths = 2000
+        ex.invariants.append(key_id(SP) != key_id(SR))
+        ex.stub(r'ast::Policy::template$', lambda ex_, st, c, A: ex_.new_cell(st, tmpl, 't'), 'Policy::template')
+        ex.stub(r'ast::Template::id$', lambda ex_, st, c, A: ex_.new_cell(st, tid, 'tid'), 'Template::id')
+        ex.stub(r'ast::Policy::id$', lambda ex_, st, c, A: ex_.new_cell(st, lid, 'lid'), 'Policy::id')
+        ex.stub(r'ast::Policy::is_static$', lambda ex_, st, c, A: BoolV(F), 'Policy::is_static: false (a template link)')
+        ex.stub(r'ast::Policy::env$', lambda ex_, st, c, A: Ref(0, ('local', 'ENV')), 'Policy::env: the slot bindings')
+        ex.stub(r'ast::SlotId::principal$', lambda ex_, st, c, A: SP, 'SlotId::principal()')
+        ex.stub(r'ast::SlotId::resource$', lambda ex_, st, c, A: SR, 'SlotId::resource()')
+        ex.stub(r'PolicyID as AsRef<str>>::as_ref$', lambda ex_, st, c, A: A[0], 'PolicyID::as_ref::<str>')
+        ex.stub(r'<str as (std::string::)?ToString>::to_string$', table([(tid, tid_txt), (lid, lid_txt)]), 'text of an id (token)')
+        ex.stub(r'ast::PolicyID::from_string::<', table([(tid_txt, tid), (lid_txt, lid)]), 'PolicyID::from_string on the text of an id: that id')
+        ex.stub(r'Option::<(std::string::)?String>::as_ref$|Option::<&(std::string::)?String>::as_ref$', lambda ex_, st, c, A: None, 'pass')
+        ex.stub(r'<(cedar_policy_core::)?EntityUid as From<&.*EntityUID>>::from$', table([(up, pup), (ur, pur)]), 'slot value -> message (token)')
+        ex.stub(r'EntityUID as TryFrom<(cedar_policy_core::)?EntityUid>>::try_from$', lambda ex_, st, c, A: (lambda r: None if r is None else ok(r))({pup.id: up, pur.id: ur}.get(gid(ex_, st, A[0]))), 'message -> slot value')
+        ex.stub(r'PolicyID as Clone>::clone$|Arc<.*Template> as Clone>::clone$', lambda ex_, st, c, A: strip(ex_, st, A[0]), 'clone: the same object')
+        ex.stub(r'HashSet::<.*PolicyID>::insert$', lambda ex_, st, c, A: BoolV(z3.Bool('link_id_is_new')), 'link_ids.insert(id): new or already there')
+        ex.stub(r'LinkedHashMap::<.*>::get::<', lambda ex_, st, c, A: (st.notes.__setitem__('template_lookup', gid(ex_, st, A[1])) or [([z3.Bool('template_exists')], some(ex_.new_cell(st, arc(tmpl), 'tm'))), ([z3.Not(z3.Bool('template_exists'))], none())]),
+                'templates.get(template id): found or not, logged')
+        ex.stub(r'LinkedHashMap::<.*>::contains_key::<', lambda ex_, st, c, A: BoolV(z3.Bool('link_id_names_a_template')), 'templates.contains_key(link id)')
+        ex.stub(r'HashMap::<.*SlotId, .*EntityUID>::new$', lambda ex_, st, c, A: Agg('struct', '~hmap', None, []), 'HashMap::new (slot values)')
+
+        def ins(ex_, st, c, A):
+            m = strip(ex_, st, A[0])
+            if not (isinstance(m, Agg) and m.name == '~hmap'):
+                return None
+            r = C.base_ref(ex_, st, A[0])
+            new = Agg('struct', '~hmap', None, list(m.fields) + [Agg('tuple', None, None, [A[1], A[2]])])
+            return [([], none(), lambda s2: ex_.write(s2, r.fid, r.place, new))]
+        ex.stub(r'HashMap::<.*SlotId, .*EntityUID>::insert$', ins, 'HashMap::insert (slot values; the two slot ids are distinct)')
+
+        def link(ex_, st, c, A):
+            st.notes['link'] = list(A)
+            return [([z3.Bool('link_ok')], ok(Opaque('ast::policy::Policy', 'relinked policy'))), ([z3.Not(z3.Bool('link_ok'))], err(Opaque('LinkingError', 'linking error')))]
+        ex.stub(r'ast::Template::link$', link, 'Template::link(template, link id, values): logged')
+        ex.stub(r'ProtobufConversionError::missing$', lambda ex_, st, c, A: Opaque('ProtobufConversionError', 'missing field'), 'conversion error (term)')
+        C.install(ex)
+        return ex
+    ex = mk()
+    outs = ex.run(f1, [Ref(0, ('local', 'POL'))], heap={'POL': pol, 'ENV': env})
+    ctx.absorb(ex)
+    nm = f'template link AST -> protobuf message -> AST[?principal {"bound" if has_p else "unbound"}, ?resource {"bound" if has_r else "unbound"}]'
+    ctx.panic_summary(nm + ' (to message)', outs, ex)
+    rets = [o for o in outs if o.kind == 'ret']
+    if len(rets) != 1:
+        raise NotEncoded(f'{nm}: AST -> message gave {len(rets)} results')
+    msg = deep(ex, rets[0].st, rets[0].val)
+    ex2 = mk()
+    outs2 = ex2.run(f2, [msg, Ref(0, ('local', 'IDS')), Ref(0, ('local', 'TEMPLATES'))], heap={'IDS': Opaque('HashSet<PolicyID>', 'link ids so far'), 'TEMPLATES': Opaque('LinkedHashMap<PolicyID, Arc<Template>>', 'templates')})
+    ctx.absorb(ex2)
+    ctx.panic_summary(nm + ' (back to AST)', outs2, ex2)
+    rets2 = [o for o in outs2 if o.kind == 'ret']
+    bad, last = [], None
+    want_vals = sorted(([(SP.id, up.id)] if has_p else []) + ([(SR.id, ur.id)] if has_r else []))
+    for o in rets2:
+        if isinstance(o.val, Agg) and o.val.variant == 'Ok':
+            A = o.st.notes.get('link')
+            good = A is not None and len(A) == 3 and o.st.notes.get('template_lookup') == tid.id
+            if good:
+                vals = strip(ex2, o.st, A[2])
+                got = sorted((gid(ex2, o.st, e.fields[0]), gid(ex2, o.st, e.fields[1])) for e in vals.fields) if isinstance(vals, Agg) and vals.name == '~hmap' else None
+                last = {'template': gid(ex2, o.st, A[0]), 'link id': gid(ex2, o.st, A[1]), 'values': got}
+                good = gid(ex2, o.st, A[0]) == tmpl.id and gid(ex2, o.st, A[1]) == lid.id and got == want_vals
+            bad.append(z3.And(o.pc + [z3.BoolVal(not good)]))
+    ctx.decide(f'{nm}/the same template, link id and slot values under their own slots', [z3.Or(bad) if bad else T], ex=ex2, sample={'message': repr(msg)[:300], 'relinked': str(last)[:200]},
+               on_sat=lambda m: battery(ctx, nm, 'proto/policy.rs: Policy (template link) conversion', 'a template link does not survive AST -> protobuf -> AST'))
+    ctx.decide(f'{nm}/paths-cover', [z3.Not(z3.Or([z3.And(o.pc) if o.pc else T for o in rets2]))], ex=ex2)
+    ctx.decide(f'{nm}/witness', [z3.Or([z3.And(o.pc) if o.pc else T for o in rets2 if isinstance(o.val, Agg) and o.val.variant == 'Ok'] or [F])], expect='sat', ex=ex2)
+
+
 # ---------------------------------------------------------------------------------------------------------------- expression nodes
 
 AFILE = 'cedar-policy/src/proto/ast.rs'
@@ -315,6 +513,11 @@ def families(ctx, battery=proto_battery):
     for label, build in action_shapes():
         fam.append((f'proto action constraint {label}', lambda label=label, build=build: constraint_round_trip(ctx, 'action', label, build, battery)))
     fam.append(('proto effect', lambda: effect_round_trip(ctx, battery)))
+    for hc in (True, False):
+        for eff in ('Permit', 'Forbid'):
+            fam.append((f'proto template body {eff} cond={hc}', lambda hc=hc, eff=eff: template_round_trip(ctx, hc, eff, battery)))
+    for hp, hr in ((True, True), (True, False), (False, True), (False, False)):
+        fam.append((f'proto template link p={hp} r={hr}', lambda hp=hp, hr=hr: link_round_trip(ctx, hp, hr, battery)))
     for label, build in expr_nodes():
         fam.append((f'proto expression {label}', lambda label=label, build=build: expr_round_trip(ctx, label, build, battery)))
     return fam
